@@ -81,7 +81,9 @@ Proof.
 Qed.
 
 Definition is_field (e : bytes * bytes) : Prop :=
-  exists ks s, In ks ["cert"; "ocsp"; "sct"]%string /               e = (enc_bytes_of Model.Cbor.TText (s2b ks), enc_bytes s).
+  exists (ks : string) (s : bytes),
+    In ks ["cert"; "ocsp"; "sct"]%string /\
+    e = (enc_bytes_of Model.Cbor.TText (s2b ks), enc_bytes s).
 
 Lemma opt_entry_fields (k : string) (o : option bytes) :
   In k ["cert"; "ocsp"; "sct"]%string -> Forall is_field (opt_entry k o).
@@ -107,4 +109,144 @@ Proof.
   rewrite Ee in *. cbn [fst snd] in IW, IL. destruct IW as [_ Wv].
   apply pair_ok; [exact Hks|apply wfb_enc_bytes; exact Wv|].
   pose proof (lenN_enc_bytes s). lia.
+Qed.
+
+Lemma encode_all_spec (l : list augcert) :
+  exists items, encode_all l = Ok (List.concat items) /\
+                Forall2 (fun a it => encode_augcert a = Ok it) l items.
+Proof.
+  induction l as [|a t [items [E F]]]; cbn [encode_all].
+  - exists []. split; [reflexivity|constructor].
+  - destruct (encode_augcert_total a) as [it Ea]. rewrite Ea, E. cbn [bind].
+    exists (it :: items). split; [reflexivity|constructor; assumption].
+Qed.
+
+(* ---- vouched subsets ------------------------------------------------------------------ *)
+Definition vouched_entries (v : vouched) : list (bytes * bytes) :=
+  [(enc_bytes_of Model.Cbor.TText (s2b "authority"), enc_uint (vs_authority v));
+   (enc_bytes_of Model.Cbor.TText (s2b "sig"), enc_bytes (vs_sig v));
+   (enc_bytes_of Model.Cbor.TText (s2b "signed"), enc_bytes (vs_signed v))].
+
+Fixpoint vouched_go (l : list vouched) : R bytes :=
+  match l with
+  | [] => Ok []
+  | v :: t => let* m := enc_map (vouched_entries v) in let* r := vouched_go t in Ok (m ++ r)
+  end.
+
+Lemma signatures_section_eq (s : signatures) :
+  signatures_section s =
+  let* auths := encode_all (sg_auth s) in
+  let* vss := vouched_go (sg_vouched s) in
+  Ok (enc_array_header 2 ++ enc_array_header (lenN (sg_auth s)) ++ auths
+      ++ enc_array_header (lenN (sg_vouched s)) ++ vss).
+Proof. reflexivity. Qed.
+
+Lemma vouched_total (v : vouched) : exists out, enc_map (vouched_entries v) = Ok out.
+Proof.
+  destruct (enc_map_ok_or_err (vouched_entries v)) as [E|E]; [exfalso|exact E].
+  apply enc_map_dup in E. apply E. unfold vouched_entries. cbn [map fst]. vm_compute.
+  repeat constructor; cbn [In]; intuition discriminate.
+Qed.
+
+Lemma vouched_go_spec (l : list vouched) :
+  exists items, vouched_go l = Ok (List.concat items) /\
+                Forall2 (fun v it => enc_map (vouched_entries v) = Ok it) l items.
+Proof.
+  induction l as [|v t [items [E F]]]; cbn [vouched_go].
+  - exists []. split; [reflexivity|constructor].
+  - destruct (vouched_total v) as [it Ev]. rewrite Ev, E. cbn [bind].
+    exists (it :: items). split; [reflexivity|constructor; assumption].
+Qed.
+
+Lemma vouched_det (v : vouched) (out : bytes) :
+  enc_map (vouched_entries v) = Ok out -> wfb out -> lenN out < two64v ->
+  vs_authority v < two64v -> DetItem out.
+Proof.
+  intros E W L A. destruct (enc_map_inv _ _ E) as [IW IL]. specialize (IW W).
+  eapply DetEnc.enc_map_det; [| |exact E]; [|cbn [vouched_entries lenN]; lia].
+  rewrite Forall_forall in IW, IL.
+  assert (Wv : forall k x, In (k, x) (vouched_entries v) -> wfb x /\ lenN x <= lenN out).
+  { intros k x Hin. specialize (IW _ Hin). specialize (IL _ Hin). cbn [fst snd] in *. split; [tauto|lia]. }
+  unfold vouched_entries in *.
+  destruct (Wv _ _ (or_intror (or_introl eq_refl))) as [W2 L2].
+  destruct (Wv _ _ (or_intror (or_intror (or_introl eq_refl)))) as [W3 L3].
+  repeat (apply Forall_cons || apply Forall_nil); (split; cbn [fst snd]).
+  - apply (key_det "authority"); [vm_compute; reflexivity|reflexivity|reflexivity].
+  - apply DetEnc.enc_uint_det. exact A.
+  - apply (key_det "sig"); [vm_compute; reflexivity|reflexivity|reflexivity].
+  - apply DetEnc.enc_bytes_det; [apply wfb_enc_bytes; exact W2|].
+    pose proof (lenN_enc_bytes (vs_sig v)). lia.
+  - apply (key_det "signed"); [vm_compute; reflexivity|reflexivity|reflexivity].
+  - apply DetEnc.enc_bytes_det; [apply wfb_enc_bytes; exact W3|].
+    pose proof (lenN_enc_bytes (vs_signed v)). lia.
+Qed.
+
+(* ---- the whole section ------------------------------------------------------------------ *)
+Theorem signatures_section_total (s : signatures) : exists out, signatures_section s = Ok out.
+Proof.
+  rewrite signatures_section_eq.
+  destruct (encode_all_spec (sg_auth s)) as [ia [Ea _]].
+  destruct (vouched_go_spec (sg_vouched s)) as [iv [Ev _]].
+  rewrite Ea, Ev. cbn [bind]. eauto.
+Qed.
+
+Lemma lenN_concat_in (items : list bytes) (it : bytes) :
+  In it items -> lenN it <= lenN (List.concat items).
+Proof.
+  induction items as [|x t IH]; intros H; [contradiction|]. cbn [List.concat]. rewrite lenN_app.
+  destruct H as [->|H]; [lia|]. specialize (IH H). lia.
+Qed.
+
+Lemma Forall2_lenN {A B} (P : A -> B -> Prop) (l : list A) (l' : list B) :
+  Forall2 P l l' -> lenN l = lenN l'.
+Proof. induction 1; cbn [lenN]; [reflexivity|]. lia. Qed.
+
+(* an array head for the items, then the items, all deterministic *)
+Lemma array_det {A} (P : A -> bytes -> Prop) (l : list A) (items : list bytes) :
+  Forall2 P l items ->
+  (forall a it, P a it -> In a l -> wfb it -> lenN it < two64v -> DetItem it) ->
+  wfb (List.concat items) -> lenN (List.concat items) < two64v ->
+  DetItem (enc_array_header (lenN l) ++ List.concat items).
+Proof.
+  intros F Hdet W L.
+  assert (D : Forall DetItem items).
+  { apply DetLemmas.wfb_concat in W. rewrite Forall_forall in W.
+    assert (G : forall a it, In a l -> P a it -> In it items -> DetItem it).
+    { intros a it Ha Hp Hi. apply (Hdet a it Hp Ha); [apply W; exact Hi|].
+      pose proof (lenN_concat_in _ _ Hi). lia. }
+    clear Hdet W L. induction F as [|a it l' items' Hp F IH]; [constructor|].
+    constructor.
+    - apply (G a it); [left; reflexivity|exact Hp|left; reflexivity].
+    - apply IH. intros a' it' Ha' Hp' Hi'. apply (G a' it'); [right; exact Ha'|exact Hp'|right; exact Hi']. }
+  rewrite (Forall2_lenN _ _ _ F). apply DetEnc.enc_array_det; [exact D|].
+  pose proof (DetComplete.concat_len_ge items D). lia.
+Qed.
+
+Theorem signatures_section_det (s : signatures) (out : bytes) :
+  signatures_section s = Ok out -> wfb out -> lenN out < two64v ->
+  Forall (fun v => vs_authority v < two64v) (sg_vouched s) -> DetItem out.
+Proof.
+  rewrite signatures_section_eq.
+  destruct (encode_all_spec (sg_auth s)) as [ia [Ea Fa]].
+  destruct (vouched_go_spec (sg_vouched s)) as [iv [Ev Fv]].
+  rewrite Ea, Ev. cbn [bind]. intros H W L A. injection H as H. subst out.
+  pose (x := enc_array_header (lenN (sg_auth s)) ++ List.concat ia).
+  pose (y := enc_array_header (lenN (sg_vouched s)) ++ List.concat iv).
+  assert (E : enc_array_header 2 ++ enc_array_header (lenN (sg_auth s)) ++ List.concat ia
+              ++ enc_array_header (lenN (sg_vouched s)) ++ List.concat iv
+              = enc_array_header (lenN [x; y]) ++ List.concat [x; y]).
+  { unfold x, y. cbn [List.concat]. rewrite app_nil_r, <- !app_assoc. reflexivity. }
+  change (enc_array_header 2) with [130] in E. cbn [app] in E. rewrite E in *. clear E.
+  apply DetLemmas.wfb_app in W. destruct W as [_ W]. cbn [List.concat] in W. rewrite app_nil_r in W.
+  apply DetLemmas.wfb_app in W. destruct W as [Wx Wy].
+  rewrite lenN_app in L. cbn [List.concat] in L. rewrite app_nil_r, lenN_app in L.
+  apply DetEnc.enc_array_det; [|cbn [lenN]; lia].
+  unfold x, y in *. apply DetLemmas.wfb_app in Wx. apply DetLemmas.wfb_app in Wy.
+  rewrite !lenN_app in L.
+  constructor; [|constructor; [|constructor]].
+  - eapply array_det; [exact Fa| |apply Wx|lia].
+    intros a it Ha _ Wi Li. cbv beta in Ha. eapply encode_augcert_det; eassumption.
+  - eapply array_det; [exact Fv| |apply Wy|lia].
+    intros v it Hv Hin Wi Li. cbv beta in Hv. eapply vouched_det; try eassumption.
+    rewrite Forall_forall in A. apply A. exact Hin.
 Qed.
